@@ -81,6 +81,14 @@ add("C12", "model_checking",
     "explicit-state BFS over operation histories with canonical-state de-duplication, every transition executed on the implementation against a reference model",
     "DESIGN.md 2/C12", "E1+E3+E8")
 
+add("C16", "model_checking",
+    "Stateless model checking of the real templates under a controlled scheduler: real pthreads, exactly one runnable, scheduling point at every storage access (probe backend hook) plus each thread's tail; all interleavings of the 2-thread programs and all interleavings with at most 2 (quick) / 3 (thorough) preemptions of the 3-thread programs, "
+    "for every storage order x {direct, nearest, linear} x N in 1..3, shared and per-thread views, readers and a writer on disjoint cells. Each schedule is compared with the sequential run (results, final storage) and scanned for conflicting accesses; failing schedules are replayed twice. "
+    "Accesses between scheduling points are covered by a separate free-running ThreadSanitizer pass (T up to 16) and an object-file inventory of writable static data in covfie::.",
+    "sequentially consistent hand-off; T<=3 under the scheduler; TSan pass is a detector, not an enumeration",
+    "preemption-bounded exhaustive schedule enumeration of the implementation under a hooked cooperative scheduler (CHESS-style), plus TSan free run",
+    "DESIGN.md 2/C16", "E2+E5")
+
 def main():
     props = [json.loads(l) for l in open(os.path.join(V, "properties.jsonl"))]
     checks, na = [], []
